@@ -59,6 +59,10 @@ def run(repo, rep, tier):
     from . import c04
     L.borrow(repo, rep, "R20.4", "C04", c04._lookup,
              ("builtin-default", "lookup-order", "name-"), minimum=1)
+    # a name loaded as text is a text template: the loader's registry tells
+    # the formats (template classes) of one file apart (C14 owns the key)
+    from . import c14
+    L.borrow(repo, rep, "R20.1", "C14", c14._publish, ("registry-key",))
     L.state_rule(repo, rep)
 
 
